@@ -133,13 +133,35 @@ func c15Check(ctx *Ctx, res *CaseResult, dir string, p *c15Payload, regen *Rand)
 	allApplied := true
 	steps := p.Passes
 	n := len(steps)
+	keyedPkg, keyedObj := "", ""
 	if regen != nil {
 		n = 1 + regen.Intn(6)
 		steps = nil
+		if sr := regen.Side("map-key-ref"); sr.Chance(1, 8) {
+			// a reference used as the index type of a map (only a hand-written type can hold
+			// one): the history starts by adding such an object, and its second step is a
+			// transformation aimed at the object the key refers to
+			view := ViewOf(cur)
+			if pk := view.pickPkg(sr); pk != nil && len(pk.Objects) > 0 {
+				keyedPkg, keyedObj = pk.Name, Pick(sr, pk.Objects).Name
+				if n < 2 {
+					n = 2
+				}
+			}
+		}
 	}
 	for i := 0; i < n; i++ {
 		var ps PassSpec
-		if regen != nil {
+		if regen != nil && keyedObj != "" && i == 0 {
+			ps = PassSpec{Kind: "add_object", Obj: keyedPkg + ".KeyedBy" + keyedObj, Type: &TypeSpec{K: "map",
+				Index: &TypeSpec{K: "ref", RefPkg: keyedPkg, RefName: keyedObj}, Elem: &TypeSpec{K: "string"}}}
+			p.Passes = append(p.Passes, ps)
+		} else if regen != nil && keyedObj != "" && i == 1 {
+			sr := regen.Side("map-key-ref-step")
+			ps = GenPassSpec(regen, ViewOf(cur), Pick(sr, []string{"replace_reference", "replace_reference", "rename_object"}))
+			ps.Obj = keyedPkg + "." + keyedObj
+			p.Passes = append(p.Passes, ps)
+		} else if regen != nil {
 			kinds := append(append([]string{}, configurablePasses...), "prefix", "append_comment")
 			kind := Pick(regen, kinds)
 			if kind == "unspec" {
